@@ -8,7 +8,7 @@ def observe(it):
         return True
     if it[0] == "cb":
         return it[1] in CB
-    return it[0] in ("ret", "ok", "err")
+    return it[0] in ("ret", "ok", "err", "acts")
 
 def tick_unordered(e):
     """actions falling due on the same tick may run in any order (not a property); everything else is compared in order"""
